@@ -15,7 +15,7 @@ import (
 func init() { register("C07", checkC07) }
 
 func checkC07(c *an.Ctx) {
-	c.Rule("C07.1", "execute table (= C06.3) plus: the value stored in Task.ExitCode is the first result of IsExitStatus on that very error, through width- and sign-preserving conversions only; Execute and IsExitStatus hand the interpreter's verdict through unchanged")
+	c.Rule("C07.1", "execute table (= C06.3) and hook rows of the Run trace (a failing after command does not make Run return an error; a failing before command does) plus: the value stored in Task.ExitCode is the first result of IsExitStatus on that very error, through width- and sign-preserving conversions only; Execute and IsExitStatus hand the interpreter's verdict through unchanged")
 	c.Rule("C07.2", "deferred reset (E2/E4): ExitCode := 0 is executed iff the task is neither errored nor skipped; ExitCode, Errored and Skipped have no other writers than the job walk, the skip branch, the reset and constructors")
 	c.Rule("C07.3", "error chain (E7): the error of the job walk reaches main through propagating call sites only (Run → runTask / runStage → graph error → Schedule → runPipeline → runTarget → actions → app.Run → run → main); main exits non-zero exactly on a non-nil error")
 	c.Rule("C07.4", "sequential targets (E2/E3): every loop over the command-line arguments that runs targets does so by synchronous calls in slice order and returns on the first error")
@@ -26,6 +26,9 @@ func checkC07(c *an.Ctx) {
 	}
 	c.OK("C07.0", "runner roles", r.run.Pos(), "execute=%s", an.Short(r.execute))
 	executeTable(c, r, "C07.1", true)
+	// Run reports an error exactly when the task failed: a failing before command fails the run, a failing
+	// after command does not turn a task that succeeded into a failed target
+	checkRunTable(c, "C07.1", map[string]bool{"hooks": true})
 	exitCodeProvenance(c, r, "C07.1")
 	deferredReset(c, r, "C07.2")
 	errorChainToMain(c, r, "C07.3")
